@@ -65,6 +65,7 @@ type Ent struct {
 	Opened   bool
 	Dummy    bool // placeholder returned with a partial walk; must never be used
 	Uses     int
+	Creator  string // task inside whose file-system call the handle was made ("" outside the scheduler)
 	file     *File
 }
 
@@ -140,7 +141,7 @@ func (fs *FS) end(h *Ent) {
 func (fs *FS) NCalls() int { return fs.ncalls }
 
 func (fs *FS) newEnt(n *Node, path string) *Ent {
-	e := &Ent{ID: len(fs.Handles), fs: fs, node: n, PathStr: path, IsDirF: n.Dir}
+	e := &Ent{ID: len(fs.Handles), fs: fs, node: n, PathStr: path, IsDirF: n.Dir, Creator: vsched.TaskName()}
 	fs.Handles = append(fs.Handles, e)
 	return e
 }
